@@ -776,6 +776,21 @@ func (r *run) queryBox() geom.Bounds {
 		if len(r.model) > 0 {
 			o := r.model[t.Choose(len(r.model), "q-touch")]
 			w := float64(t.Range(0, 3, "q-w")) * r.scale
+			if t.OneIn(3, "q-near-miss") {
+				// not touching, but only just: one ulp beyond an edge (a
+				// denormal gap when that edge is at 0), or one ulp inside
+				up, dn := math.Inf(1), math.Inf(-1)
+				if t.Bool("q-near-inside") {
+					up, dn = dn, up
+				}
+				r.res.Probe("near-miss-query(1-ulp)")
+				if t.Bool("q-near-x") {
+					x := math.Nextafter(o.bb.Max.X, up)
+					return geom.Bounds{Min: geom.Point{X: x, Y: o.bb.Min.Y - w}, Max: geom.Point{X: math.Max(x, x+w), Y: o.bb.Max.Y + w}}
+				}
+				y := math.Nextafter(o.bb.Min.Y, dn)
+				return geom.Bounds{Min: geom.Point{X: o.bb.Min.X - w, Y: math.Min(y, y-w)}, Max: geom.Point{X: o.bb.Max.X + w, Y: y}}
+			}
 			switch t.Choose(4, "q-side") {
 			case 0:
 				return geom.Bounds{Min: geom.Point{X: o.bb.Max.X, Y: o.bb.Min.Y}, Max: geom.Point{X: o.bb.Max.X + w, Y: o.bb.Max.Y}}
